@@ -9,7 +9,7 @@ import ast
 import hashlib
 import os
 
-from .values import ModuleVal, Frame, FuncVal, Unsupported, PyExc, MISSING
+from .values import ModuleVal, Frame, FuncVal, Unsupported, PyExc, MISSING, ClassVal, LOADING, register_global
 
 
 class Unknown:
@@ -67,7 +67,19 @@ class Repo:
         m.frame = Frame({'$module': m, '__name__': name, '__file__': path})
         m.ns = m.frame.vars
         self.modules[name] = m
-        self.exec_module(m)
+        LOADING[0] += 1
+        try:
+            self.exec_module(m)
+        finally:
+            LOADING[0] -= 1
+        if name.startswith(self.pkg):
+            for k, v in list(m.ns.items()):
+                if k.startswith('$') or k.startswith('__'):
+                    continue
+                register_global('%s.%s' % (name, k), v)
+                if isinstance(v, ClassVal) and getattr(v, 'module', None) is m:
+                    for a, av in list(v.attrs.items()):
+                        register_global('%s.%s.%s' % (name, k, a), av)
         return m
 
     def module_attr(self, mod, name):
